@@ -5,6 +5,7 @@ package main
 // z3-new 5.1.0 and cvc5 and takes the first definitive answer.
 
 import (
+	"runtime"
 	"bytes"
 	"context"
 	"fmt"
@@ -38,6 +39,8 @@ var solvers = []solverSpec{
 	{name: "cvc5-1.0", bin: "cvc5", args: func(t int) []string { return []string{fmt.Sprintf("--tlimit=%d", t*1000)} },
 		prefix: "(set-option :produce-models true)\n(set-logic ALL)\n"},
 }
+
+var procSlots = make(chan struct{}, runtime.NumCPU())
 
 var scratchDir string
 var scratchOnce sync.Once
@@ -79,6 +82,14 @@ func runOne(ctx context.Context, sp solverSpec, script string, timeoutS int, pro
 		return SolveResult{Status: "error", Solver: sp.name, Output: err.Error()}
 	}
 	defer os.Remove(path)
+	// one CPU per solver process: time limits then measure solver work, not
+	// contention between the processes this run started itself
+	select {
+	case procSlots <- struct{}{}:
+	case <-ctx.Done():
+		return SolveResult{Status: "timeout", Solver: sp.name}
+	}
+	defer func() { <-procSlots }()
 	cctx, cancel := context.WithTimeout(ctx, time.Duration(timeoutS+2)*time.Second)
 	defer cancel()
 	cmd := exec.CommandContext(cctx, sp.bin, append(sp.args(timeoutS), path)...)
